@@ -138,14 +138,10 @@ def gen_cfg(rng, v):
             return [v["idx"], hk, 1, 1]                 # head/array bits raised to the minimums 4 / 2
         return [v["idx"], hk, rng.choice([4, 5, 6]), rng.choice([2, 3, 4])]
     hk = rng.below(8)
-    if fam == "split":
+    if fam == "split" or fam == "split_static":
+        # (2,2) with a static table asked for capacity 1 although SplitListSet starts with 2 buckets (fixed in /repo 74287cb;
+        # regression: corpus/C14/split_static_capacity1.json)
         return [v["idx"], hk, rng.choice([2, 4, 8, 8, 16]), 1 if rng.chance(4, 5) else 2]
-    if fam == "split_static":
-        # static_bucket_table( nItemCount, nLoadFactor ) has capacity ceil2( nItemCount / nLoadFactor ); SplitListSet always starts
-        # with 2 buckets, so capacity 1 (e.g. (2,2)) is an input the code does not reject: bucket(1) is out of the table and
-        # init_bucket spins forever on the exhausted aux-node pool.  Reported; not generated.
-        lf = 1 if rng.chance(4, 5) else 2
-        return [v["idx"], hk, rng.choice([2, 4, 8, 8, 16]) * lf, lf]
     return [v["idx"], hk, rng.choice([1, 2, 4, 8]), rng.choice([1, 1, 2])]
 
 
